@@ -3,6 +3,7 @@ package noiseh
 import (
 	"bytes"
 	"fmt"
+	"strings"
 	"sync"
 	"sync/atomic"
 	"testing"
@@ -124,7 +125,10 @@ func TestC04(t *testing.T) {
 	classes := map[string]int{}
 	note := func(c string) { mu.Lock(); classes[c]++; mu.Unlock() }
 
-	check := func(c hsCase, o hsOpts, tamper string, onlyVersionEdits bool) {
+	// vclass: "" or, for edits of version bytes only, which acts were edited
+	// ("mitm-version-bytes/acts=2+3"), so that the class of a finding names
+	// the exact manipulation.
+	check := func(c hsCase, o hsOpts, tamper string, vclass string) {
 		ini, rsp := c.parties()
 		ri, rr, _, err := runHandshake(ini, rsp, o)
 		atomic.AddInt64(&evals, 1)
@@ -153,8 +157,8 @@ func TestC04(t *testing.T) {
 			cls := "untampered"
 			if tamper != "" {
 				cls = "mitm-other"
-				if onlyVersionEdits {
-					cls = "mitm-version-bytes"
+				if vclass != "" {
+					cls = vclass
 				}
 			}
 			fields := ""
@@ -198,7 +202,7 @@ func TestC04(t *testing.T) {
 			partA = append(partA, c)
 		}
 	}
-	parallel(len(partA), func(i int) { check(partA[i], hsOpts{}, "", false) })
+	parallel(len(partA), func(i int) { check(partA[i], hsOpts{}, "", "") })
 	r.Sample(map[string]any{"part": "A", "case": partA[len(partA)/3].String(), "tamper": "none"})
 
 	// Part A2: reconnects. The same client (same ConnData) completes a
@@ -389,7 +393,14 @@ func TestC04(t *testing.T) {
 			},
 			editR2I: func(idx int, ch []byte) ([][]byte, bool) { return [][]byte{subAt(1, ch)}, false },
 		}
-		check(j.c, o, fmt.Sprintf("version bytes of acts -> %v (-1 = untouched)", j.subs), true)
+		var edited []string
+		for a, v := range j.subs {
+			if v >= 0 {
+				edited = append(edited, fmt.Sprint(a+1))
+			}
+		}
+		check(j.c, o, fmt.Sprintf("version bytes of acts -> %v (-1 = untouched)", j.subs),
+			"mitm-version-bytes/acts="+strings.Join(edited, "+"))
 	})
 	r.Sample(map[string]any{"part": "B1", "case": vjobs[len(vjobs)/2].c.String(), "tamper": fmt.Sprintf("version bytes -> %v", vjobs[len(vjobs)/2].subs)})
 
@@ -449,7 +460,11 @@ func TestC04(t *testing.T) {
 				return [][]byte{ch}, false
 			},
 		}
-		check(j.c, o, fmt.Sprintf("flip bit %d of byte %d of act %d", j.bit%8, j.bit/8, j.act+1), j.bit/8 == 0)
+		vc := ""
+		if j.bit/8 == 0 {
+			vc = fmt.Sprintf("mitm-version-bytes/acts=%d", j.act+1)
+		}
+		check(j.c, o, fmt.Sprintf("flip bit %d of byte %d of act %d", j.bit%8, j.bit/8, j.act+1), vc)
 	})
 	if len(fjobs) > 0 {
 		f := fjobs[len(fjobs)/2]
